@@ -272,7 +272,9 @@ def import_ranges(text):
             continue
         s = offs[n.lineno - 1] + gen_source.char_col(lines[n.lineno - 1], n.col_offset)
         e = offs[n.end_lineno - 1] + gen_source.char_col(lines[n.end_lineno - 1], n.end_col_offset)
-        at_line_start = text[offs[n.lineno - 1]:s].strip(" \t\f") == "" or (
+        # (whitespace in front of the import on its line — it takes a form feed for that to compile — is text of its
+        # own: like a statement in front of the import it keeps the line's newline when the import goes away)
+        at_line_start = text[offs[n.lineno - 1]:s] == "" or (
             bool(out) and out[-1][1] == s and out[-1][3])   # directly after an import that began the line
         j = e
         while j < L and text[j] in " \t\f":
